@@ -227,7 +227,7 @@ def kani_part(report, tier, backend):
     report.bounds["kani_%s" % backend] = ("amounts: every f64 bit pattern" if backend == "f64" else "amounts: Decimal::new_raw(c, 3), |c| < 2^40") + \
         "; units: all ordered pairs by symbolic indices; types: Temperature, synthetic no-reference Tri, synthetic single-unit Pile"
     report.notes.append("documented panic sites read from /repo/src/lib.rs: %s" % sites)
-    kc.run(report, timeout=1200 if tier == "quick" else 3000)
+    kc.run(report, timeout=600 if tier == "quick" else 3000)
     return kc
 
 
